@@ -442,3 +442,77 @@ Proof.
   rewrite E. rewrite Qabs_pos by nra. nra.
 Qed.
 
+
+(* ------------------------------- in radians, relative to the requested angle *)
+
+Lemma Qabs_le_iff : forall x c, Qabs x <= c <-> - c <= x /\ x <= c.
+Proof. intros x c. apply Qabs_Qle_condition. Qed.
+
+(* front-end error fe and threshold excess te as parameters *)
+Theorem radians_with_front_end : forall D thr rest raw rf out tol p target fe te,
+  0 <= rest -> rest < 2 -> steps thr rest raw rf -> post D raw = Some out ->
+  pow2 (8 - D) <= thr -> 0 <= p ->
+  Qabs (rest * p - target) <= fe -> thr * p <= tol + te ->
+  Qabs (sumq out * p - target) <= tol + te + fe.
+Proof.
+  intros D thr rest raw rf out tol p target fe te H0 H2 Hs Hpost HD Hp Hfe Hte.
+  destruct (run_correct D thr rest raw rf H0 H2 Hs) as
+    [s [out' [_ [Hpost' [_ [_ [_ [_ [_ [_ [_ [_ [_ [Hnn [_ Hle]]]]]]]]]]]]]]].
+  rewrite Hpost in Hpost'. inversion Hpost'; subst out'.
+  specialize (Hle HD). destruct Hle as [_ Hle]. rewrite Qabs_pos in Hle by exact Hnn.
+  apply Qabs_le_iff in Hfe. destruct Hfe as [Hf1 Hf2]. apply Qabs_le_iff.
+  set (e := rest - sumq out) in *.
+  assert (E : sumq out * p - target == (rest * p - target) - e * p) by (unfold e; ring).
+  assert (He : 0 <= e * p) by nra. assert (He2 : e * p <= thr * p) by nra.
+  rewrite E. split; lra.
+Qed.
+
+(* |a p + b| <= c at both ends of an interval, hence inside *)
+Lemma abs_linear_between : forall a b c p1 p2 p,
+  p1 <= p -> p <= p2 -> Qabs (a * p1 + b) <= c -> Qabs (a * p2 + b) <= c -> Qabs (a * p + b) <= c.
+Proof.
+  intros a b c p1 p2 p H1 H2 Ha Hb. apply Qabs_le_iff in Ha, Hb. apply Qabs_le_iff.
+  destruct Ha as [Ha1 Ha2], Hb as [Hb1 Hb2].
+  destruct (Qlt_le_dec a 0) as [Hn|Hp]; split; nra.
+Qed.
+
+Lemma fe_at_bound : forall angle tol rest thr k p c,
+  fe_at angle tol rest thr k p <= c ->
+  exists fe te, Qabs (rest * p - (angle - 2 * inject_Z k * p)) <= fe /\ thr * p <= tol + te /\ fe + te <= c /\ 0 <= te.
+Proof.
+  intros angle tol rest thr k p c H. unfold fe_at in H.
+  destruct (Qle_bool (thr * p) tol) eqn:E.
+  - apply Qle_bool_iff in E. exists (Qabs (rest * p - (angle - 2 * inject_Z k * p))), 0.
+    repeat split; try lra.
+  - exists (Qabs (rest * p - (angle - 2 * inject_Z k * p))), (thr * p - tol).
+    assert (tol < thr * p). { apply Qnot_le_lt. intro Hc. apply Qle_bool_iff in Hc. congruence. }
+    repeat split; lra.
+Qed.
+
+(* The statement of the docstring about the doubles themselves, for every value
+   p of pi between the rational bounds, under the per-input hypothesis fe_ok
+   (decided by computation for every case of the correspondence stream) *)
+Theorem radians_checked : forall angle tol rest thr outs out k p,
+  front angle tol = Some (rest, thr) -> 0 <= rest -> rest < 2 -> pow2 (8 - D_FIELD) <= thr ->
+  spec_all angle tol = Some outs -> In (Some out) outs ->
+  fe_ok angle tol rest thr k = true ->
+  PI_LO <= p -> p <= PI_HI ->
+  Qabs ((sumq out + 2 * inject_Z k) * p - angle) <= tol + FE_ALLOW.
+Proof.
+  intros angle tol rest thr outs out k p Hf H0 H2 HD Hs Hin Hok Hp1 Hp2.
+  unfold spec_all in Hs. rewrite Hf in Hs. revert Hs. generalize FUEL. intros fuel Hs.
+  injection Hs as Hs. subst outs. apply in_map_iff in Hin. destruct Hin as [[raw rf] [Ho Hin]]. cbn [fst] in Ho.
+  apply expand_all_sound in Hin.
+  unfold fe_ok in Hok. apply andb_true_iff in Hok. destruct Hok as [Hlo Hhi].
+  apply Qle_bool_iff in Hlo, Hhi.
+  assert (Hend : forall q, 0 <= q -> fe_at angle tol rest thr k q <= FE_ALLOW ->
+                 Qabs ((sumq out + 2 * inject_Z k) * q + - angle) <= tol + FE_ALLOW).
+  { intros q Hq Hfe. destruct (fe_at_bound _ _ _ _ _ _ _ Hfe) as [fe [te [Ha [Hb [Hc Hd]]]]].
+    pose proof (radians_with_front_end D_FIELD thr rest raw rf out tol q _ fe te H0 H2 Hin Ho HD Hq Ha Hb) as H.
+    assert (E : (sumq out + 2 * inject_Z k) * q + - angle == sumq out * q - (angle - 2 * inject_Z k * q)) by ring.
+    rewrite E. apply Qabs_le_iff in H. apply Qabs_le_iff. destruct H. split; lra. }
+  assert (E : (sumq out + 2 * inject_Z k) * p - angle == (sumq out + 2 * inject_Z k) * p + - angle) by ring.
+  rewrite E. apply abs_linear_between with (p1 := PI_LO) (p2 := PI_HI); try assumption.
+  - apply Hend; [discriminate | exact Hlo].
+  - apply Hend; [discriminate | exact Hhi].
+Qed.
